@@ -64,7 +64,7 @@ CHECKS = {
                 "inverted when > 1, 0 unless lower > 0, < threshold; |difference| > tolerance; unmasked pixels only; value taken when newly resolved). Not decided: which level each pixel finally receives as a property of the "
                 "whole loop over masks, what user functions do.",
         "note": "Trusted: Python ast, E1 resolver, numpy indexing semantics, reference forms from the property statement.",
-        "technique": "static analysis: traversal typestate for slim and sub-pixel counters + polynomial-normal-form equality of stored payloads; pass-through / wiring rules on the class layer; normalised comparator structure",
+        "technique": "static analysis: traversal typestate for slim and sub-pixel counters + polynomial-normal-form equality of stored payloads; pass-through / wiring rules on the class layer; normalised comparator structure; wiring decided on name-free path summaries (every path with its atomic conditions and the substituted value it returns)",
     },
     "C10": {
         "text": "Decides, for every mask (holes, several components, unmasked pixels on the outer ring) and odd kernel shape (non-square included): the blurring mask lays footprints range((-K+1)//2,(K+1)//2) per own kernel axis "
@@ -73,7 +73,7 @@ CHECKS = {
                 "EVERY unmasked pixel of the full mask (traversal typestate), entries recorded iff unmasked and edge, sized by the same predicate; the border test is the four axis-direction walks with counts y, W-x-1, H-y-1, x along the "
                 "pixel's own column/row; the border list is the edge list of the same mask filtered by it in order; native, mask and grid views all derive from the same slim lists. Not decided: nothing numerical - topology clauses reduce to these local definitions.",
         "note": "Trusted: Python ast, E1 resolver, numpy slicing / np.sum semantics.",
-        "technique": "static analysis: abstract evaluation + normalised guard/bounds comparison; traversal typestate; must-raise; view wiring rule",
+        "technique": "static analysis: abstract evaluation + normalised guard/bounds comparison; traversal typestate; must-raise; view wiring rule; wiring decided on name-free path summaries (every path with its atomic conditions and the substituted value it returns)",
     },
     "C11": {
         "text": "Decides, for every input and every access history at once, the ownership shape that makes the behaviour impossible to break, from a whole-project effect analysis (ownership tags parameter / field-of-self / cached-property value / "
@@ -95,7 +95,7 @@ CHECKS = {
                 "objects and settings, the w-tilde object is the preloaded or the dataset's one and is checked against the fitted noise-map. Not decided: numerical agreement of the two formalisms (the algebra of C04) and of a user-supplied "
                 "preload with the recomputed value (the property's premise).",
         "note": "Trusted: Python ast, E1 resolver, EFFECT engine tables. A genuine defect found by the short-circuit rule was repaired (fix 95ddc1d).",
-        "technique": "static analysis: interprocedural effect / ownership analysis for writes to preload slots; provenance table extracted from setters + site classification of every slot read; factory wiring rules",
+        "technique": "static analysis: interprocedural effect / ownership analysis for writes to preload slots; provenance table extracted from setters + site classification of every slot read; factory wiring rules; wiring decided on name-free path summaries (every path with its atomic conditions and the substituted value it returns)",
     },
     "C05": {
         "text": "Decides partial correctness of the solvers, for every system and every combination of the solver settings: (solve) both entry points receive (F+H, D) in that order, LinAlgError / RuntimeError / ValueError become "
@@ -108,7 +108,7 @@ CHECKS = {
                 "Not decided: termination, the max_repetitions stall exit, conditioning and floating-point error of scipy's solve / cholesky / cho_solve - i.e. optimality 'to numerical precision' itself.",
         "note": "Trusted: Python ast, E1 resolver, KEval; the Lawson-Hanson argument from invariants to KKT is mathematics, not checked by machine. A genuine defect (invalid warm start, non-optimal results for ~5-25% of systems with negative "
                 "unconstrained entries) was found while building the state rule and repaired (fix a8b36c1); the rule reports the pre-fix code.",
-        "technique": "static analysis: exhaustive exploration of a finite typestate abstraction of the active-set loop; canonical-form equality of kernels; call-site wiring and error-discipline rules",
+        "technique": "static analysis: exhaustive exploration of a finite typestate abstraction of the active-set loop; canonical-form equality of kernels; call-site wiring and error-discipline rules; wiring decided on name-free path summaries (every path with its atomic conditions and the substituted value it returns)",
     },
     "C08": {
         "text": "Decides, for every dataset / mask / model: each of the 21 fit_util functions equals its definition as a canonical form (data - model, (r/n)^2, sum log(2 pi n^2), -(chi2+norm)/2, residual/data, "
@@ -117,7 +117,7 @@ CHECKS = {
                 "figure of merit = evidence iff `inversion is not None`; the regularization term and both log-determinants are formed from the *_reduced quantities, which drop exactly the no-regularization rows and columns; "
                 "signal_to_noise_map clips negatives on a fresh array only. Not decided: floating-point accuracy of determinants and sums.",
         "note": "Trusted: Python ast, E1 resolver, numpy ufunc where=/out= and boolean-mask selection semantics.",
-        "technique": "static analysis: polynomial-normal-form evaluation of the definitions + canonical-form equality; definition-wiring rule over resolved calls and keyword bindings; branch-guard rule",
+        "technique": "static analysis: polynomial-normal-form evaluation of the definitions + canonical-form equality; definition-wiring rule over resolved calls and keyword bindings; branch-guard rule; wiring decided on name-free path summaries (every path with its atomic conditions and the substituted value it returns)",
     },
     "C16": {
         "text": "Decides the structural clauses of the FITS round trip for every shape / value / flip setting: the flip points (2-D HDU writer, 2-D file reader, flip_hdu_for_ds9) apply np.flipud exactly once under "
@@ -127,7 +127,7 @@ CHECKS = {
                 "every reader rebuilds with the header's pixel scale; writers hand over native values (masks as float), masks are converted back to booleans. Known finding (listed): anisotropic pixel scales are written as a single "
                 "PIXSCALE because the PIXSCALEY/X branch is dead. Not decided: astropy's value fidelity.",
         "note": "Trusted: Python ast, E1 resolver and call graph, astropy.io.fits, os / os.path semantics.",
-        "technique": "static analysis: flip-parity counting over the resolved call graph; who-may-call rule; guard dominance on os.remove / os.makedirs; dead-handler rule (transitive can-raise); header key agreement between writer and readers",
+        "technique": "static analysis: flip-parity counting over the resolved call graph; who-may-call rule; guard dominance on os.remove / os.makedirs; dead-handler rule (transitive can-raise); header key agreement between writer and readers; wiring decided on name-free path summaries (every path with its atomic conditions and the substituted value it returns)",
     },
     "C17": {
         "text": "Decides, for every user function and input grid, the structural clauses that make entry k correspond to coordinate k: the three makers dispatch on exactly Grid2D / Grid2DIrregular / Grid1D; the user function "
@@ -136,7 +136,7 @@ CHECKS = {
                 "angle + 90 used whenever they are not None (never by truthiness) and wraps in Array1D with the grid's pixel scale; relocate_to_radial_minimum scales rows with radius < minimum by minimum/radius and all others by the literal 1.0 "
                 "on a new array, never writes into the caller's grid or a view of it, and evaluates the function on the relocated grid; transform applies the frame change once. Not decided: what user functions do; over-sampling interplay (C09).",
         "note": "Trusted: Python ast, numpy np.where / np.multiply semantics. These are syntactic pass-through / wiring rules over the decorator bodies; C01 supplies the slim-order meaning of 'entry k'.",
-        "technique": "static analysis: pass-through and dispatch rules over the AST of the decorator layer; alias-based no-write-to-input rule; guard-form rule",
+        "technique": "static analysis: pass-through and dispatch rules over the AST of the decorator layer; alias-based no-write-to-input rule; guard-form rule; wiring decided on name-free path summaries (every path with its atomic conditions and the substituted value it returns)",
     },
     "C18": {
         "text": "Decides, for every mask, sub-size map and source-plane coordinate set: in relocated_grid_via_jit_from the output starts as an element-wise copy of the input (same shape, row k -> row k) and the ONLY other store is "
@@ -165,7 +165,7 @@ CHECKS = {
                 "lattice parameters forwarded unchanged); Point.mask is the barycentric test with all three coordinates in [0,1] and every Shape.mask override ORs in super().mask(triangles). "
                 "Not decided: floating-point tolerance for coincident vertices (np.unique), the mesh generated by for_limits_and_scale.",
         "note": "Trusted: Python ast, E1 resolver, numpy stack / concatenate / unique semantics, parity arithmetic of the lattice offsets (done by the rule on integers).",
-        "technique": "static analysis: abstract evaluation to canonical forms with set-of-children comparison; algebraic verification of the lattice identities by polynomial normal forms; override-chain rule",
+        "technique": "static analysis: abstract evaluation to canonical forms with set-of-children comparison; algebraic verification of the lattice identities by polynomial normal forms; override-chain rule; wiring decided on name-free path summaries (every path with its atomic conditions and the substituted value it returns)",
     },
     "C06": {
         "text": "Decides, for every mask, sub-size map and source-plane coordinate set: the dense mapping matrix accumulates sub_fraction[data pixel]*weight[sub pixel, slot] into (data pixel, source pixel) over every sub-pixel and filled slot onto zeros; "
@@ -188,7 +188,7 @@ CHECKS = {
                 "reported weights; an object without regularization contributes np.zeros((params, params)); blocks are assembled by scipy block_diag over linear_obj_list in order, unfiltered. Not decided: positive-definiteness of coefficient * inv(cov), "
                 "determinants, symmetry of the neighbour lists themselves (C06 declined).",
         "note": "Trusted: Python ast, E1 resolver, scipy.linalg.block_diag, np.linalg.inv. Quadratic-form statements are conditional on symmetric neighbour lists.",
-        "technique": "static analysis: abstract evaluation of kernels + set equality of canonical update forms (update-shape rule); scheme-to-util wiring; no-cache side condition; block assembly rule",
+        "technique": "static analysis: abstract evaluation of kernels + set equality of canonical update forms (update-shape rule); scheme-to-util wiring; no-cache side condition; block assembly rule; wiring decided on name-free path summaries (every path with its atomic conditions and the substituted value it returns)",
     },
     "C14": {
         "text": "Decides, for all source / target shapes, kernels, masks, scales, origins: resized_array_2d_from copies destination (i, j) from source (i + floor(H/2) - floor(R0/2), j + floor(W/2) - floor(R1/2)) exactly when inside both arrays (each index "
